@@ -1159,7 +1159,15 @@ def _stdin_fix(
 
     exit_code = _handle_unparsable(fix_even_unparsable, exit_code, result, formatter)
 
-    if result.num_violations(types=SQLLintError, fixable=True) > 0:
+    # NOTE: Include violations configured as warnings, so that they are fixed
+    # just as they are when fixing a path (see `LintedFile.persist_tree`).
+    if (
+        result.paths[0].files
+        and result.paths[0].files[0].num_violations(
+            types=SQLLintError, fixable=True, filter_warning=False
+        )
+        > 0
+    ):
         stdout = result.paths[0].files[0].fix_string()[0]
     else:
         stdout = stdin
